@@ -12,6 +12,8 @@ use tracing_log_error::log_error;
 
 use crate::connection::ConnectionInfo;
 use crate::server::ShutdownMode;
+#[cfg(pavex_verif)]
+use crate::server::verif;
 
 pub(super) struct ConnectionMessage {
     pub(super) connection: TcpStream,
@@ -158,11 +160,15 @@ where
             shutdown_coordinator,
         } = self;
         'event_loop: loop {
+            #[cfg(pavex_verif)]
+            verif::point_async("worker_before_poll", id).await;
             let message =
                 poll_fn(|cx| Self::poll_inboxes(cx, &mut shutdown_inbox, &mut connection_inbox))
                     .await;
             match message {
                 WorkerInboxMessage::Connection(connection) => {
+                    #[cfg(pavex_verif)]
+                    verif::event("conn_started", id, connection.peer_addr.port());
                     Self::handle_connection(
                         connection,
                         handler,
@@ -175,6 +181,8 @@ where
                         completion_notifier,
                         mode,
                     } = shutdown;
+                    #[cfg(pavex_verif)]
+                    verif::event("worker_shutdown_received", id, mode.is_graceful());
                     match mode {
                         ShutdownMode::Graceful { timeout } => {
                             // Stop accepting new connections.
@@ -182,6 +190,8 @@ where
 
                             // Kick-off work for all pending connections.
                             while let Some(connection) = connection_inbox.recv().await {
+                                #[cfg(pavex_verif)]
+                                verif::event("conn_drained", id, connection.peer_addr.port());
                                 Self::handle_connection(
                                     connection,
                                     handler,
@@ -190,9 +200,19 @@ where
                                 );
                             }
 
+                            #[cfg(pavex_verif)]
+                            verif::event("worker_inbox_drained", id, 0u64);
+                            #[cfg(pavex_verif)]
+                            verif::point("worker_before_graceful_signal", id);
+                            #[cfg(pavex_verif)]
+                            let verif_t0 = std::time::Instant::now();
+                            #[cfg(pavex_verif)]
+                            verif::event("graceful_wait_begin", id, timeout.as_millis());
                             // Wait for all live connections to be closed or for the timeout to expire.
                             let _ = tokio::time::timeout(timeout, shutdown_coordinator.shutdown())
                                 .await;
+                            #[cfg(pavex_verif)]
+                            verif::event("graceful_wait_end", id, verif_t0.elapsed() >= timeout);
                         }
                         ShutdownMode::Forced => {}
                     }
@@ -201,6 +221,8 @@ where
                 }
             }
         }
+        #[cfg(pavex_verif)]
+        verif::event("worker_exit", id, 0u64);
         tracing::info!(worker_id = id, "Worker shut down");
     }
 
